@@ -23,6 +23,8 @@ fn rects(cfg: u64) -> Vec<[i32; 4]> {
         1 => vec![[0, 0, 1, 1], [3, 0, 4, 1], [6, 0, 7, 1], [9, 0, 10, 1]],
         2 => vec![[1, 1, 2, 2], [0, 0, 4, 4], [1, 1, 2, 2], [0, 0, 5, 5]],
         3 => vec![[0, 0, 5, 5], [1, 1, 2, 2], [0, 0, 5, 5], [3, 3, 4, 4]],
+        5 => vec![[0, 0, 1, 1], [3, 0, 4, 1], [6, 0, 7, 1], [0, 0, 1, 1]],
+        6 => vec![[0, 0, 1, 1], [3, 0, 4, 1], [6, 0, 7, 1], [3, 0, 4, 1]],
         _ => vec![[0, 0, 2, 2], [1, 1, 3, 3], [0, 0, 3, 3], [2, 2, 2, 2]],
     }
 }
